@@ -239,6 +239,7 @@ def run(ctx):
     class_level_containers(ctx)
     r.rule("R12.5", "factory caches key on the full keyword arguments their value is built from", floor=1)
     lossy_cache_keys(ctx, "R12.5")
+    shared_cache_publication(ctx)
 
 
 def _stale_handler_revalidates(ctx, pm, cls_name, slot):
@@ -490,6 +491,56 @@ def module_state(ctx):
                         {"methods": hit}, detail={"singleton": name, "class": cls.name, "mutating_methods": sorted(writers),
                                                   "methods_called": sorted(called)})
     r.extra["module_level_containers"] = sorted("%s::%s" % k for k in containers)
+
+
+def shared_cache_publication(ctx, rid="R12.6"):
+    """A cache shared by all threads (a dict captured by a closure / at module level) is read without a lock:
+    `return cache[a][b][c]`.  Whatever is stored under the full key path is therefore visible to another thread at once, so the
+    only thing ever stored there may be the finished value -- not a placeholder that is overwritten a statement later.  And a
+    guard `if <x> not in cache: cache[<x>] = {}` has to test the key it is about to create: testing a *string literal* that merely
+    spells the variable's name is always true, so every miss re-creates (wipes) the level, and with it other threads' entries."""
+    r = ctx.r
+    r.rule(rid, "shared factory caches publish only finished values and guard each level with the key they create", floor=1)
+    n = 0
+    for f in ctx.repo.all_functions(include_unruled=False):
+        lookups = [x for x in walk_no_nested(f.node) if isinstance(x, ast.Return) and isinstance(x.value, ast.Subscript)]
+        if not lookups:
+            continue
+        paths = []
+        for rt in lookups:
+            keys, base = [], rt.value
+            while isinstance(base, ast.Subscript):
+                keys.append(norm(base.slice))
+                base = base.value
+            if isinstance(base, ast.Name) and len(keys) >= 2:
+                paths.append((base.id, list(reversed(keys))))
+        for cache, keys in paths:
+            local_names = {a.arg for a in f.node.args.args} | {t.id for st in walk_no_nested(f.node) if isinstance(st, ast.Assign) for t in st.targets if isinstance(t, ast.Name)}
+            if cache in local_names:
+                continue
+            n += 1
+            full = "%s[%s]" % (cache, "][".join(keys))
+            stores = [st for st in walk_no_nested(f.node) if isinstance(st, ast.Assign) and len(st.targets) == 1 and norm(st.targets[0]) == full]
+            placeholders = [st for st in stores if isinstance(st.value, (ast.Dict, ast.List, ast.Set)) or norm(st.value) in ("dict()", "None")]
+            key = "cache-publication::%s" % f.qual
+            r.check(rid, not (placeholders and len(stores) > 1), key + "::placeholder", "%s:%d" % (f.module.rel, (placeholders or stores or [f.node])[0].lineno),
+                    "%s stores a placeholder (`%s`) under the full key of the shared cache before the real value: a thread that looks the "
+                    "entry up in between gets the placeholder as a cache hit (first use of getTreeBuilder / getTreeWalker from two "
+                    "threads: AttributeError: 'dict' object has no attribute 'TreeBuilder')"
+                    % (f.qual, norm(placeholders[0]) if placeholders else ""), detail={"stores": [norm(x) for x in stores]})
+            literal_guards = []
+            for t in walk_no_nested(f.node):
+                if isinstance(t, ast.If) and isinstance(t.test, ast.Compare) and len(t.test.ops) == 1 and isinstance(t.test.ops[0], ast.NotIn) and \
+                        isinstance(t.test.left, ast.Constant) and isinstance(t.test.left.value, str) and norm(t.test.comparators[0]).startswith(cache):
+                    created = [norm(st.targets[0]) for st in t.body if isinstance(st, ast.Assign) and isinstance(st.targets[0], ast.Subscript)]
+                    if created and not any(repr(t.test.left.value) in c for c in created):
+                        literal_guards.append(norm(t.test))
+            r.check(rid, not literal_guards, key + "::guards", f.where,
+                    "%s guards the creation of a cache level with a string literal (%s) instead of the key it creates: the test is always "
+                    "true, so every miss replaces the level by an empty dict and drops what other requests had cached"
+                    % (f.qual, "; ".join(literal_guards)), detail={"guards": literal_guards})
+    if n < 1:
+        raise AnalysisError("%s: no shared multi-level cache lookup found (expected _utils.moduleFactoryFactory.moduleFactory)" % rid)
 
 
 def lossy_cache_keys(ctx, rid):
@@ -748,6 +799,8 @@ def thorough(ctx):
 def mutants():
     from ..selftest import TextMutant as T
     return [
+        T("module-cache-placeholder", "_utils.py", "            moduleCache[name][args][kwargs_tuple] = mod\n", "            moduleCache[name][args][kwargs_tuple] = {}\n            moduleCache[name][args][kwargs_tuple] = mod\n", "R12.6"),
+        T("module-cache-literal-guard", "_utils.py", "            if name not in moduleCache:", "            if \"name\" not in moduleCache:", "R12.6"),
         T("dropnewline-unchecked", "html5parser.py", "            self.tree.openElements[-1].name in (\"pre\", \"listing\", \"textarea\") and\n", "", "R12.1"),
         T("tokenqueue-class-level", "_tokenizer.py", "    def __init__(self, stream, parser=None, **kwargs):\n", "    tokenQueue = deque([])\n\n    def __init__(self, stream, parser=None, **kwargs):\n", "R12.4"),
         T("drop-reset-frameset", "html5parser.py", "        self.beforeRCDataPhase = None\n\n        self.framesetOK = True\n",
@@ -767,8 +820,8 @@ def mutants():
           "_seen = []\n\n\ndef impliedTagToken(name, type=\"EndTag\", attributes=None,\n                    selfClosing=False):\n    _seen.append(name)\n    if attributes is None:\n        attributes = {}\n", "R12.2"),
         T("serializer-errors-kept", "serializer.py", "        after_pre = False\n        self.errors = []\n", "        after_pre = False\n", "R12.3"),
         T("serializer-after-pre-on-self", "serializer.py", "            first_in_pre = after_pre\n            after_pre = False\n", "            first_in_pre = getattr(self, 'after_pre', False)\n            self.after_pre = after_pre\n            after_pre = False\n", "R12.3"),
-        T("filter-state-on-self", "filters/whitespace.py", "        preserve = 0\n        for token in base.Filter.__iter__(self):",
-          "        preserve = 0\n        self.depth = getattr(self, 'depth', 0) + 1\n        for token in base.Filter.__iter__(self):", "R12.3"),
+        T("filter-state-on-self", "filters/whitespace.py", "        preserve = 0\n        after_space = False",
+          "        preserve = 0\n        self.depth = getattr(self, 'depth', 0) + 1\n        after_space = False", "R12.3"),
         T("trie-cache-on-path", "_trie/py.py", "        if prefix in self._data:\n            return True\n",
           "        if prefix in self._data:\n            return True\n        self.keys(prefix)\n", "R12.2"),
     ]
